@@ -71,6 +71,16 @@ theorem c19_rsocks_constructors :
     ctorSendCloses.all id = true ∧ ctorRecvCloses.all id = true ∧ ctorSendCloses ≠ [] ∧ ctorRecvCloses ≠ [] ∧
     rsocksCtorsDelegate = true := by decide
 
+/-- The client glue that is modelled by hand rather than translated — `mclient.Run`, `monitor`, `filterNetconfig`
+(re-stated as `mrun`/`filterGen` in `Code/Bridge8.lean`), `advanceState` and `hackAbsoluteSleep` (environment operations of
+the translated automaton: `advRes`, `SleepUntil`) — has the source text those re-statements were written against
+(FNV-1a of the normalised bodies). A difference is not a violation by itself; it says the hand-written part must be re-read,
+and the `mclient`/`cliauto` streams, which run the real functions, are searched for a failing input. -/
+theorem c15_client_glue_pinned :
+    hashMclientRun = 8823502185001801136 ∧ hashMclientMonitor = 5931907665491495088 ∧
+    hashFilterNetconfig = 6170598302862921982 ∧ hashAdvanceState = 5192006917054959880 ∧
+    hashHackAbsoluteSleep = 2015223890260266535 := by decide
+
 /-! ### sanitising, resolv.conf -/
 theorem c17_regexes :
     reBadChars = "[^a-zA-Z0-9,\\.-]" ∧ reGoodChars = "^[a-zA-Z0-9\\.-]+$" ∧ reGoodNums = "^[0-9\\.]+$" ∧
